@@ -143,9 +143,9 @@ public :
     {
         assert(m_bufferSize > 0);
 
-        if (m_buffer.size() == m_bufferSize)
+        if (m_buffer.size() >= m_bufferSize)
         {
-            flushBuffer();
+            flushBufferForMore();
         }
 
         m_buffer.push_back(theChar);
@@ -406,6 +406,15 @@ public :
             XalanDOMString&         theBuffer);
 
 protected:
+
+    /**
+     * Flush the stream's transcoding buffer because more data is
+     * coming.  If the buffer ends with the first half of a UTF-16
+     * surrogate pair, that code unit stays in the buffer, so the
+     * two halves of the pair are always transcoded together.
+     */
+    void
+    flushBufferForMore();
 
     /**
      * Transcode a wide string.
